@@ -675,13 +675,26 @@ class TenSym(PySym):
             raise Unsupported("subscript of %s" % type(base).__name__)
         if isinstance(n, ast.Call):
             return self.call(n)
-        if isinstance(n, (ast.ListComp, ast.GeneratorExp)) and len(n.generators) == 1:
-            g = n.generators[0]
+        if isinstance(n, (ast.ListComp, ast.GeneratorExp, ast.DictComp, ast.SetComp)):
             out = []
-            for item in self.iterate(self.ex(g.iter)):
-                self.bind(g.target, item)
-                if all(self.truth(self.ex(c)) for c in g.ifs):
-                    out.append(self.ex(n.elt))
+
+            def gen(k):
+                if k == len(n.generators):
+                    out.append((self.pyval(self.ex(n.key)), self.ex(n.value)) if isinstance(n, ast.DictComp) else self.ex(n.elt))
+                    return
+                g = n.generators[k]
+                for item in self.iterate(self.ex(g.iter)):
+                    self.bind(g.target, item)
+                    if all(self.truth(self.ex(c)) for c in g.ifs):
+                        gen(k + 1)
+            gen(0)
+            if isinstance(n, ast.DictComp):
+                return dict(out)
+            if isinstance(n, ast.SetComp):
+                vals = [self.pyval(v) for v in out]
+                if any(isinstance(v, (Rat, Ten, Obj, list)) for v in vals):
+                    raise Unsupported("set of symbolic values")
+                return frozenset(vals)
             return out
         if isinstance(n, ast.Compare) and len(n.ops) == 1:
             a, b = self.ex(n.left), self.ex(n.comparators[0])
@@ -757,6 +770,15 @@ class TenSym(PySym):
             res = Ten(sh, out)
             res.isbool = True
             return res
+        if isinstance(op, (ast.In, ast.NotIn)) and isinstance(b, (dict, frozenset, list, tuple)):
+            a_ = self.pyval(a)
+            if isinstance(a_, (Rat, Ten)):
+                raise Unsupported("membership of a symbolic value: %s" % (src(n) if n is not None else "?"))
+            if isinstance(a_, Obj) or any(isinstance(x, Obj) for x in b):
+                r = any(x is a_ for x in b)
+            else:
+                r = a_ in ([self.pyval(x) for x in b] if isinstance(b, (list, tuple)) else b)
+            return r if isinstance(op, ast.In) else not r
         conc = (int, str, bool, type(None), tuple, list, frozenset)
         if isinstance(a, Rat) and a.const_value() is not None:
             a = a.const_value()
@@ -1443,6 +1465,10 @@ class TenSym(PySym):
             return [self.getitem(v, i) for i in range(v.shape[0])]
         if isinstance(v, (list, tuple)):
             return list(v)
+        if isinstance(v, (range, frozenset)):
+            return sorted(v) if isinstance(v, frozenset) else list(v)
+        if isinstance(v, dict):
+            return list(v.keys())
         raise Unsupported("iteration over %s" % type(v).__name__)
 
     def inline(self, fn, call):
@@ -1499,6 +1525,18 @@ class TenSym(PySym):
             self.env[target.id] = v
         elif isinstance(target, (ast.Tuple, ast.List)):
             items = self.iterate(v)
+            stars = [k for k, t in enumerate(target.elts) if isinstance(t, ast.Starred)]
+            if len(stars) == 1:
+                k = stars[0]
+                after = len(target.elts) - k - 1
+                if len(items) < len(target.elts) - 1:
+                    raise ShapeError("cannot unpack %d values into %d targets and a starred one" % (len(items), len(target.elts) - 1))
+                for t, x in zip(target.elts[:k], items[:k]):
+                    self.bind(t, x)
+                self.bind(target.elts[k].value, list(items[k:len(items) - after]))
+                for t, x in zip(target.elts[k + 1:], items[len(items) - after:]):
+                    self.bind(t, x)
+                return
             if len(items) != len(target.elts):
                 raise ShapeError("cannot unpack %d values into %d targets" % (len(items), len(target.elts)))
             for t, x in zip(target.elts, items):
